@@ -1,9 +1,9 @@
 /-
   "No precommit without a polka", over every run (C04 L1 lifted from the transition to the history).
 
-  Every vote the node signs goes through its own queue (`signAddVote`). `QJ` says: every own
-  precommit for a block that sits in the queue - signed for the height the node is in - names a
-  block for which the node's prevote set of THAT round reports +2/3. The invariant is kept by every
+  `signed` is the list of all votes the node has ever signed (a ghost field of the model, appended
+  by `signAddVote`, read by nothing). `QJ` says: every precommit for a block in it - signed for the
+  height the node is in - names a block for which the node's prevote set of THAT round reports +2/3. The invariant is kept by every
   handler: the justification is there when the vote is signed (`enterPrecommit` signs a block only
   on `maj23 (prevotes r)`, in the round the node is in), a reported majority is never withdrawn
   (`VoteSet.addVote_maj23`, `setPeerMaj23_maj23`; rounds are only added), and when the height moves
@@ -18,35 +18,30 @@ import AnnVerif.Lemmas.VoteSetInv
 
 namespace AnnVerif.Node
 
-def OwnJust (n : Node) : Msg → Prop
-  | .vote v _ => v.height ≤ n.height ∧
-      (v.type = 2 → v.height = n.height → v.bid.hash.isEmpty = false → maj23 (prevotes n v.round) = some v.bid)
-  | _ => True
+def OwnJust (n : Node) (v : VoteSet.Vote) : Prop :=
+  v.height ≤ n.height ∧
+    (v.type = 2 → v.height = n.height → v.bid.hash.isEmpty = false → maj23 (prevotes n v.round) = some v.bid)
 
-def QJ (n : Node) : Prop := ∀ m ∈ n.queue, OwnJust n m
+def QJ (n : Node) : Prop := ∀ v ∈ n.signed, OwnJust n v
 
 /-- `n'` is `n` some steps later: the height did not go back, reported prevote majorities of the
-    height persist, and what was added to the queue is justified -/
+    height persist, and what was signed meanwhile is justified -/
 structure Ext (n n' : Node) : Prop where
   hle : n.height ≤ n'.height
   stable : n'.height = n.height → ∀ r b, maj23 (prevotes n r) = some b → maj23 (prevotes n' r) = some b
-  queue : ∃ extra, n'.queue = n.queue ++ extra ∧ ∀ m ∈ extra, OwnJust n' m
+  queue : ∃ extra, n'.signed = n.signed ++ extra ∧ ∀ m ∈ extra, OwnJust n' m
 
 theorem prevotes_congr {n n' : Node} (h : n'.rounds = n.rounds) (r : Int) : prevotes n' r = prevotes n r := by
   unfold prevotes getRound; rw [h]
 
 theorem Ext.rfl' (n : Node) : Ext n n := ⟨Int.le_refl _, fun _ _ _ h => h, [], by simp, by simp⟩
 
-theorem OwnJust.persist {n n' : Node} (e : Ext n n') {m : Msg} (h : OwnJust n m) : OwnJust n' m := by
-  cases m with
-  | vote v ok =>
-    obtain ⟨h1, h2⟩ := h
-    refine ⟨Int.le_trans h1 e.hle, ?_⟩
-    intro ht hh hb
-    have hEq : n'.height = n.height := by have := e.hle; omega
-    exact e.stable hEq _ _ (h2 ht (by omega) hb)
-  | proposal p s b => trivial
-  | parts h r b => trivial
+theorem OwnJust.persist {n n' : Node} (e : Ext n n') {v : VoteSet.Vote} (h : OwnJust n v) : OwnJust n' v := by
+  obtain ⟨h1, h2⟩ := h
+  refine ⟨Int.le_trans h1 e.hle, ?_⟩
+  intro ht hh hb
+  have hEq : n'.height = n.height := by have := e.hle; omega
+  exact e.stable hEq _ _ (h2 ht (by omega) hb)
 
 theorem Ext.trans {a b c : Node} (x : Ext a b) (y : Ext b c) : Ext a c := by
   obtain ⟨e1, q1, j1⟩ := x.queue
@@ -69,14 +64,14 @@ theorem QJ.ext {n n' : Node} (q : QJ n) (e : Ext n n') : QJ n' := by
   · exact (q m hm).persist e
   · exact hj m hm
 
-/-- a change that touches neither the height, nor the vote sets, nor the queue -/
-theorem Ext.frame {n n' : Node} (hh : n'.height = n.height) (hr : n'.rounds = n.rounds) (hq : n'.queue = n.queue) :
+/-- a change that touches neither the height, nor the vote sets, nor signs anything -/
+theorem Ext.frame {n n' : Node} (hh : n'.height = n.height) (hr : n'.rounds = n.rounds) (hq : n'.signed = n.signed) :
     Ext n n' :=
   ⟨by omega, fun _ r b h => by rw [prevotes_congr hr]; exact h, [], by simp [hq], by simp⟩
 
-/-- the queue grows by `extra`, nothing else that matters changes -/
-theorem Ext.append {n n' : Node} (extra : List Msg) (hh : n'.height = n.height) (hr : n'.rounds = n.rounds)
-    (hq : n'.queue = n.queue ++ extra) (hj : ∀ m ∈ extra, OwnJust n' m) : Ext n n' :=
+/-- `extra` is signed, nothing else that matters changes -/
+theorem Ext.append {n n' : Node} (extra : List VoteSet.Vote) (hh : n'.height = n.height) (hr : n'.rounds = n.rounds)
+    (hq : n'.signed = n.signed ++ extra) (hj : ∀ m ∈ extra, OwnJust n' m) : Ext n n' :=
   ⟨by omega, fun _ r b h => by rw [prevotes_congr hr]; exact h, extra, hq, hj⟩
 
 theorem ext_emit (n : Node) (e : Emit) : Ext n (emit n e) := Ext.frame rfl rfl rfl
@@ -91,7 +86,7 @@ theorem ext_signAddVote (n : Node) (t : Nat) (bid : VoteSet.BlockID)
   · rename_i i a _ _
     dsimp only
     split
-    · refine Ext.append [.vote ⟨i, a, n.height, n.round, t, bid, 0⟩ true] ?_ ?_ ?_ ?_
+    · refine Ext.append [⟨i, a, n.height, n.round, t, bid, 0⟩] ?_ ?_ ?_ ?_
       · rfl
       · rfl
       · rfl
@@ -135,20 +130,12 @@ theorem ext_enterPrecommitWait (n : Node) (h r : Int) : Ext n (enterPrecommitWai
 theorem ext_decideProposal (n : Node) (h r : Int) : Ext n (decideProposal n h r) := by
   unfold decideProposal
   extract_lets own block pol p res m
-  have hm : m.height = n.height ∧ m.rounds = n.rounds ∧ m.queue = n.queue := by
+  have hm : m.height = n.height ∧ m.rounds = n.rounds ∧ m.signed = n.signed := by
     unfold m
     split <;> exact ⟨rfl, rfl, rfl⟩
   split
-  · rename_i i _
-    split
-    · refine Ext.append [.proposal p i false, .parts m.height m.round block] ?_ ?_ ?_ ?_
-      · exact hm.1
-      · exact hm.2.1
-      · show m.queue ++ _ = n.queue ++ _
-        rw [hm.2.2]
-      · intro x hx
-        simp only [List.mem_cons, List.mem_nil_iff, or_false] at hx
-        rcases hx with hx | hx <;> (subst hx; trivial)
+  · split
+    · exact Ext.frame hm.1 hm.2.1 hm.2.2
     · exact Ext.frame rfl rfl rfl
   · exact Ext.frame rfl rfl rfl
 
@@ -580,11 +567,8 @@ theorem qj_stepIn (n : Node) (i : In) (q : QJ n) (hw : WellTimed n i) : QJ (step
     show QJ (match n.queue with | [] => n | m :: rest => handleMsg { n with queue := rest } m "")
     split
     · exact q
-    · rename_i m rest hq
-      have q' : QJ { n with queue := rest } := by
-        intro x hx
-        have : x ∈ n.queue := by rw [hq]; exact List.mem_cons_of_mem _ hx
-        exact q x this
+    · rename_i m rest _
+      have q' : QJ { n with queue := rest } := q
       exact q'.ext (ext_handleMsg _ _ _)
   | timeout h r s => exact q.ext (ext_handleTimeout _ _ _ _ hw)
   | maj23 h r t peer bid => exact q.ext (ext_setPeerMaj23 _ _ _ _ _ _)
